@@ -274,6 +274,10 @@ def kind_branch(ctx: Ctx) -> List[Ob]:
         kc = [c for c in cs if _any_kind_pol(c.conds) is not True]
         if name == "has_children":
             ok = None if not kc else all(has("self.get_children(kind)", c.value) or any(has("self.get_children(kind)", v) for v in reaching_values(ctx, f, c.stmt, c.value)) for c in kc)
+            if ok is False and all(any(_is_kind_eq(x, {"kind"}) is not None for x in ast.walk(c.value)) and (CH in norm(c.value) or "self.children" in norm(c.value)) for c in kc):
+                ok = True  # the same selection spelled directly: some child whose _kind == kind
+            elif ok is False and any(any(_is_kind_eq(x, {"kind"}) is not None for x in ast.walk(c.value)) for c in kc):
+                ok = None  # a direct kind comparison next to returns this clause does not read (merged empty / any-kind guard)
         else:
             ok = None if not kc else True
             for c in kc:
@@ -879,7 +883,8 @@ def fs(ctx: Ctx) -> List[Ob]:
     T(f, "sorted: files first (by name), then directories (by path name)", ok, "files first, name-sorted, then sub-directories, name-sorted")
     # whatever the scan is split into: a sorted scan descends through a walker that can sort, an unsorted one through
     # a walker that can leave the order alone (the requested order holds at every depth, not only at the top)
-    walkers = [g for g in top.nested if any(isinstance(c, ast.Call) and isinstance(c.func, ast.Attribute) and c.func.attr == "iterdir" for c in ast.walk(g.node))]
+    # (a walker adds nodes; a nested generator that merely lists a directory is not one)
+    walkers = [g for g in top.nested if any(isinstance(c, ast.Call) and isinstance(c.func, ast.Attribute) and c.func.attr in ("add", "add_child", "append_child") for c in ast.walk(g.node))]
 
     def mode(g) -> str:
         if any(isinstance(x, ast.Name) and x.id == "sort" and isinstance(x.ctx, ast.Load) for x in ast.walk(g.node)):
@@ -1191,6 +1196,8 @@ def gen(ctx: Ctx) -> List[Ob]:
                     built = a0 is not None and isinstance(a0, ast.Call) and len(a0.keywords) == 1 and a0.keywords[0].arg is None and not a0.args
                     tab[who] = (sorted((k.arg, norm(k.value)) for k in c.keywords), built)
                 ok = tab == {"typed": ([("kind", ntv)], True), "plain": ([], True)}
+                if not ok and any(k.arg is None for c in adds for k in c.keywords):
+                    ok = None  # the keyword arguments are assembled in a dict beforehand (**kwargs): not read here
             T(f, "_make_tree: node data built from the attributes; typed parents pass kind=<type name>, plain parents only the data", ok, "")
             recs = [c for c in ast.walk(il) if isinstance(c, ast.Call) and norm(c.func) == "_make_tree"]
             ok = None
@@ -1307,6 +1314,8 @@ def search(ctx: Ctx) -> List[Ob]:
         if set(table) == set(want):
             ok = all(table[k] == want[k] or table[k] in alt.get(k, ()) for k in want)
             why = "; ".join(f"{k}: {table[k]}" for k in want if not (table[k] == want[k] or table[k] in alt.get(k, ())))
+            if not ok and all(table[k] == want[k] or table[k] in alt.get(k, ()) or not table[k].startswith("lambda:") for k in want) and table.get("callable(match)") == "match":
+                ok = None  # a matcher is built by something else than a lambda here (a callable class, a partial): not read
         else:
             why = f"cases {sorted(table)}"
     obs.append(ctx.tri("SEARCH", ["C09"], f, "matcher: callable as is, str -> regex, (pattern, flags) -> regex with flags, else data identity", None, ok, why if ok is False else "matcher dispatch not recognised"))
